@@ -10,7 +10,7 @@ s=open(p).read()
 a=s.index('| change | breaks | reported as (quick tier, VERIF_SEED=1) | what it is |')
 b=s.index('\n\n',a)
 s=s[:a]+table+s[b:]
-n=len([l for l in table.split('\n') if l.startswith('| c') or l.startswith('| m')])
+n=len([l for l in table.split('\n') if (l.startswith('| c') and not l.startswith('| change')) or l.startswith('| m')])
 s=re.sub(r'All \d+ listed changes are caught', 'All %d listed changes are caught'%n, s)
 open(p,'w').write(s)
 missed=[l for l in open(log) if 'MISSED' in l or 'FALSE ALARM' in l or 'NONDETERMINISM' in l]
